@@ -520,7 +520,7 @@ Theorem exit_returns_fair_all C pre rounds :
   to_exit s <> 0 -> Forall (fair_round C) rounds -> G C s < length rounds ->
   let s' := exec sys (step C) init (pre ++ concat rounds) in
   thr s' (c_loop C) = Done /\ returned s' = true /\
-  g_relclear s' = reg s' /\ exitdr s' = true /\ queue s' = g_late s'.
+  (c_bare C = false -> g_relclear s' = reg s' /\ exitdr s' = true /\ queue s' = g_late s').
 Proof.
   intros Hfx Hfa Hwf s Hne Hf Hlt s'.
   assert (Hd : thr s' (c_loop C) = Done).
@@ -529,7 +529,7 @@ Proof.
   split; [exact Hd|].
   pose proof (rinv_all C (pre ++ concat rounds)) as R. fold s' in R.
   destruct (kinv_all C (pre ++ concat rounds)) as [K _]. fold s' in K. rewrite Hd in K. simpl in K.
-  destruct K as (K1 & K2 & K3). repeat split; auto.
+  split; [apply R; right; exact Hd|]. intros Hb. destruct (K Hb) as (K1 & K2 & K3). repeat split; auto.
 Qed.
 
 (* WAKE: every wake-up request completed at a point of a schedule has, after more than [G] fair
